@@ -730,6 +730,7 @@ theorem document_app (c : WalkCfg) (excl : List Str → Bool → Bool) (exclRoot
   cases exclRoot
   · cases inp with
     | missing n => simp [RunResult.app_empty]
+    | special n => simp [RunResult.app_empty]
     | file name content => simpa using emitPage_app ..
     | dir name listing => simpa using walkDir_app ..
   · simp [RunResult.app_empty]
